@@ -89,6 +89,8 @@ class Exit(Exception):
 class Interp:
     def __init__(self, src: SourceModel, symbolic_constants=None, stubs=None, arrays=()):
         self.src = src
+        self._imported = set()         # modules whose import-time definitions were evaluated
+        self.import_effect_errors = []
         self.static_objs = {}          # objects that belong to a class, not to a state (enum members): survive every restore
         self.heap = {}                 # obj.id -> {attr: value}
         self.classes = {}              # qual -> ClassVal
@@ -129,6 +131,10 @@ class Interp:
             return self.classes[qual]
         node = self.src.cls(qual)
         module = qual.split(".")[0]
+        if module not in self._imported:
+            self.import_effects(module)
+            if qual in self.classes:
+                return self.classes[qual]
         c = ClassVal(qual, module, node)
         self.classes[qual] = c
         c.ntuple = None
@@ -216,6 +222,13 @@ class Interp:
             if r is not c:
                 raise AnalysisError(f"class decorator @{ast.unparse(d)} on {c.qual} replaces the class")
         self._module_level_patches(c, module)
+        for b in c.bases:
+            hook = b.lookup("__init_subclass__")
+            if hook is not _MISSING:
+                fn = hook[1] if isinstance(hook, tuple) else hook
+                kw = {k.arg: self.eval(k.value, Frame(self, module, module)) for k in node.keywords if k.arg and k.arg != "metaclass"}
+                self.call(fn, [c], kw)            # implicitly a classmethod, called once per subclass at its definition
+                break
         return c
 
     def _enum_members(self, c, node):
@@ -591,10 +604,52 @@ class Interp:
             return self.lib.external(self, f"{mod.external}.{name}")
         return self.global_name(mod.name, name)
 
+    def import_effects(self, module):
+        """Definitions that act when the module is imported, not when they are first used: top-level functions carrying a
+        decorator defined in the package (registries), and classes whose base registers its subclasses (__init_subclass__).
+        They are evaluated, in source order, the first time anything of the module is looked up."""
+        if module in self._imported or module not in self.src.modules:
+            return
+        self._imported.add(module)
+        m = self.src.modules[module]
+
+        def package_decorator(d):
+            t = d.func if isinstance(d, ast.Call) else d
+            while isinstance(t, ast.Attribute):
+                t = t.value
+            if not isinstance(t, ast.Name):
+                return False
+            r = self.src.resolve(module, t.id)
+            return bool(r) and r[0] in ("func", "class", "value")
+
+        def registering_base(node):
+            for b in node.bases:
+                if isinstance(b, ast.Name):
+                    r = self.src.resolve(module, b.id)
+                    if r and r[0] == "class":
+                        n2 = self.src.cls(r[1])
+                        if any(isinstance(x, ast.FunctionDef) and x.name == "__init_subclass__" for x in n2.body) \
+                                or registering_base(n2) and r[1].split(".")[0] == module:
+                            return True
+            return False
+        for st in m.tree.body:
+            try:
+                if isinstance(st, ast.FunctionDef) and any(package_decorator(d) for d in st.decorator_list) \
+                        and m.bindings.get(st.name) is st:
+                    self.global_name(module, st.name)
+                elif isinstance(st, ast.ClassDef) and m.bindings.get(st.name) is st and registering_base(st):
+                    self.get_class(f"{module}.{st.name}")
+            except (AnalysisError, SymRaise) as exc:
+                self.import_effect_errors.append((module, getattr(st, "name", "?"), str(exc)))
+
     def global_name(self, module, name):
         key = (module, name)
         if key in self.module_cache:
             return self.module_cache[key]
+        if module not in self._imported:
+            self.import_effects(module)
+            if key in self.module_cache:
+                return self.module_cache[key]
         dotted = f"{module}.{name}"
         if dotted in self.symconst:
             return self.symconst[dotted]
@@ -1032,10 +1087,23 @@ class Interp:
             return self.exec_try(st, frame, pc)
         if isinstance(st, ast.With):
             # context managers are modelled as their value (files); __exit__ has no analysed effect
+            suppressed = []
             for item in st.items:
                 v = self.eval(item.context_expr, frame)
+                if isinstance(v, tuple) and len(v) == 2 and v[0] == "<suppress>":
+                    suppressed.append(item.context_expr)
+                    v = None
                 if item.optional_vars is not None:
                     self.assign(item.optional_vars, v, frame)
+            if suppressed:
+                # with suppress(E1, E2): body   ==   try: body / except (E1, E2): pass
+                handlers = [ast.ExceptHandler(type=(a_ if len(sx.args) == 1 else ast.Tuple(elts=list(sx.args), ctx=ast.Load())),
+                                              name=None, body=[ast.Pass()])
+                            for sx in suppressed for a_ in [sx.args[0] if sx.args else None] if sx.args]
+                t = ast.Try(body=st.body, handlers=handlers, orelse=[], finalbody=[])
+                ast.copy_location(t, st)
+                ast.fix_missing_locations(t)
+                return self.exec_try(t, frame, pc)
             return self.exec_block(st.body, frame, pc)
         if isinstance(st, ast.Delete):
             for t in st.targets:
@@ -1099,11 +1167,81 @@ class Interp:
             if isinstance(pat, ast.MatchOr):
                 return any(matches(p, val, binds) for p in pat.patterns)
             if isinstance(pat, ast.MatchSequence):
-                if not isinstance(val, (list, tuple)) or any(isinstance(p, ast.MatchStar) for p in pat.patterns):
-                    if not isinstance(val, (list, tuple)):
+                if not isinstance(val, (list, tuple)):
+                    if isinstance(val, (Vec, Phi)) or (isinstance(val, SymObj) and val.cls is None):
+                        raise AnalysisError(f"sequence pattern against {val!r} ({frame.qual})")
+                    return False
+                stars = [i for i, p in enumerate(pat.patterns) if isinstance(p, ast.MatchStar)]
+                if stars:
+                    i = stars[0]
+                    before, after = pat.patterns[:i], pat.patterns[i + 1:]
+                    if len(val) < len(before) + len(after):
                         return False
-                    raise AnalysisError("match with a star pattern is not modelled")
+                    mid = list(val[len(before):len(val) - len(after)])
+                    if not all(matches(p, v, binds) for p, v in zip(before, val)):
+                        return False
+                    if after and not all(matches(p, v, binds) for p, v in zip(after, val[len(val) - len(after):])):
+                        return False
+                    if pat.patterns[i].name is not None:
+                        binds[pat.patterns[i].name] = mid
+                    return True
                 return len(val) == len(pat.patterns) and all(matches(p, v, binds) for p, v in zip(pat.patterns, val))
+            if isinstance(pat, ast.MatchMapping):
+                if not isinstance(val, dict):
+                    return False
+                used = []
+                for k, p in zip(pat.keys, pat.patterns):
+                    kk = self.lib.dict_key(self, val, self.eval(k, frame))
+                    if kk not in val or not matches(p, val[kk], binds):
+                        return False
+                    used.append(kk)
+                if pat.rest is not None:
+                    binds[pat.rest] = {k: v for k, v in val.items() if k not in used}
+                return True
+            if isinstance(pat, ast.MatchClass):
+                kls = self.eval(pat.cls, frame)
+                r = self.call(self.builtins["isinstance"], [val, kls], {})
+                if r is not True and r is not False:
+                    raise AnalysisError(f"class pattern whose isinstance test is symbolic ({frame.qual})")
+                if not r:
+                    return False
+                if pat.patterns:
+                    if isinstance(kls, Builtin):
+                        if len(pat.patterns) != 1:
+                            raise SymRaise("TypeError", f"{kls.name}() accepts 1 positional sub-pattern")
+                        if not matches(pat.patterns[0], val, binds):
+                            return False
+                    else:
+                        if getattr(kls, "ntuple", None):
+                            names = list(kls.ntuple.fields)
+                        else:
+                            ma = kls.lookup("__match_args__") if isinstance(kls, ClassVal) else _MISSING
+                            if ma is _MISSING and getattr(kls, "dc_fields", None) is not None:
+                                ma = tuple(f_.name for f_ in kls.dc_fields if f_.init)
+                            if ma is _MISSING:
+                                raise SymRaise("TypeError", f"{kls!r} accepts 0 positional sub-patterns")
+                            names = list(ma)
+                        if len(pat.patterns) > len(names):
+                            raise SymRaise("TypeError", "too many positional sub-patterns")
+                        for nm_, p in zip(names, pat.patterns):
+                            try:
+                                sub = self.getattr(val, nm_)
+                            except SymRaise as e_:
+                                if e_.exc == "AttributeError":
+                                    return False
+                                raise
+                            if not matches(p, sub, binds):
+                                return False
+                for nm_, p in zip(pat.kwd_attrs, pat.kwd_patterns):
+                    try:
+                        sub = self.getattr(val, nm_)
+                    except SymRaise as e_:
+                        if e_.exc == "AttributeError":
+                            return False
+                        raise
+                    if not matches(p, sub, binds):
+                        return False
+                return True
             raise AnalysisError(f"match pattern {pat.__class__.__name__} not modelled ({frame.qual})")
         for case in st.cases:
             binds = {}
